@@ -119,7 +119,7 @@ def number_operand(draw, shape_of, max_abs_log2=6, nonzero=False, kinds=NUM_KIND
     else:
         gen = st.one_of(st.integers(-(2**max_abs_log2), 2**max_abs_log2).map(float),
                         st.floats(-(2.0**max_abs_log2), 2.0**max_abs_log2, allow_nan=False),
-                        st.sampled_from([0.5, 0.25, 1 / 3, 1e-3, 3.0, -1.0, 2.0, 7.0, 0.1, 2.0**-10]))
+                        st.sampled_from([v for v in (0.5, 0.25, 1 / 3, 1e-3, 3.0, -1.0, 2.0, 7.0, 0.1, 2.0**-10) if abs(v) <= 2.0**max_abs_log2]))
         if kind == "npfloat32":
             gen = gen.map(lambda v: float(np.float32(v)))
         if kind in ("arr", "list"):
